@@ -7,7 +7,8 @@ import GnarkVerif.Model.SigParams
 C12, tie T for ecc/bw6-761/ecdsa: `Signature.SetBytes` and `(*PublicKey).Verify` (with and without a hash object) as REGENERATED
 from the Go text (Gen/Verifier/Ecdsa_bw6_761.lean). `_shape`: the generated def IS the template of Proofs/SigGen.lean at this curve's scalar
 size and group order (`rfl`). `_verify_hash` / `_verify_nohash`: run with the hand model's dictionary the generated Verify equals
-`ECParams.verify` of Model/Sig.lean (after the infinity check of Model/SigOps.lean) on every input, so `C12_ecdsa_verify_decides` etc. hold
+`ECParams.verifyPK` of Model/Sig.lean (key validation - not the infinity, ON THE CURVE, `isOnCurve` = the model's curve equation - then
+`ECParams.verify`) on every input, so `C12_ecdsa_verify_decides` etc. hold
 of the translated text. `_verify_abstract`: over any types, the exact conjunction under which the Go text returns (true, nil).
 Hypothesis `hred` of the model theorems: the x-coordinate of the point [u1]G + [u2]Q the model computes is reduced (< p); the Go code
 reduces by construction, the model's `Pt Nat` does not carry that invariant.
@@ -31,18 +32,18 @@ theorem C12gen_bw6_761_ecdsa_verify_nohash_shape {G Fp : Type} [Add G] [Sub G] [
 /-- generated `Verify` with a hash object (Write succeeds iff `wok`, digest `hsum`) = the model's verdict, every input -/
 theorem C12gen_bw6_761_ecdsa_verify_hash (sm : Int → Pt Nat → Pt Nat) (wok : Bytes → Bool) (hsum : List Bytes → Bytes)
     (Q : Pt Nat) (sig msg : Bytes) (hred : ∀ e r s x y, (SigParams.ec_bw6_761).verifyPoint sm Q e r s = some (x, y) → x < (SigParams.ec_bw6_761).p) :
-    ecdsa_bw6_761.PublicKey_Verify_hash (G := EG (SigParams.ec_bw6_761) sm) (Fp := EF (SigParams.ec_bw6_761).p) isInf modInv wok hsum (fun b => Int.ofNat ((SigParams.ec_bw6_761).hashToInt b)) ⟨(SigParams.ec_bw6_761).G⟩
+    ecdsa_bw6_761.PublicKey_Verify_hash (G := EG (SigParams.ec_bw6_761) sm) (Fp := EF (SigParams.ec_bw6_761).p) isInf isOnC modInv wok hsum (fun b => Int.ofNat ((SigParams.ec_bw6_761).hashToInt b)) ⟨(SigParams.ec_bw6_761).G⟩
         jacZ jacX fpToInt ⟨Q⟩ sig msg
-      = toRes (if Q.isNone then .error .pkInfinity else (SigParams.ec_bw6_761).verify sm (some (mkHash wok hsum)) Q sig msg) := by
+      = toRes ((SigParams.ec_bw6_761).verifyPK sm (some (mkHash wok hsum)) Q sig msg) := by
   rw [C12gen_bw6_761_ecdsa_verify_hash_shape]
   exact ecdsaVerifyHashT_model (SigParams.ec_bw6_761) sm (by decide) wok hsum Q sig msg hred
 
 /-- generated `Verify` with `hFunc == nil` (the message is the digest) = the model's verdict, every input -/
 theorem C12gen_bw6_761_ecdsa_verify_nohash (sm : Int → Pt Nat → Pt Nat) (Q : Pt Nat) (sig msg : Bytes)
     (hred : ∀ e r s x y, (SigParams.ec_bw6_761).verifyPoint sm Q e r s = some (x, y) → x < (SigParams.ec_bw6_761).p) :
-    ecdsa_bw6_761.PublicKey_Verify_nohash (G := EG (SigParams.ec_bw6_761) sm) (Fp := EF (SigParams.ec_bw6_761).p) isInf modInv (fun b => Int.ofNat ((SigParams.ec_bw6_761).hashToInt b)) ⟨(SigParams.ec_bw6_761).G⟩
+    ecdsa_bw6_761.PublicKey_Verify_nohash (G := EG (SigParams.ec_bw6_761) sm) (Fp := EF (SigParams.ec_bw6_761).p) isInf isOnC modInv (fun b => Int.ofNat ((SigParams.ec_bw6_761).hashToInt b)) ⟨(SigParams.ec_bw6_761).G⟩
         jacZ jacX fpToInt ⟨Q⟩ sig msg
-      = toRes (if Q.isNone then .error .pkInfinity else (SigParams.ec_bw6_761).verify sm none Q sig msg) := by
+      = toRes ((SigParams.ec_bw6_761).verifyPK sm none Q sig msg) := by
   rw [C12gen_bw6_761_ecdsa_verify_nohash_shape]
   exact ecdsaVerifyNoHashT_model (SigParams.ec_bw6_761) sm (by decide) Q sig msg hred
 
@@ -57,14 +58,14 @@ theorem C12gen_bw6_761_ecdsa_sigparse {G Fp : Type} [Add G] [Sub G] [Neg G] [Zer
 
 /-- abstract level: the exact acceptance condition of the Go text (see `ecdsaVerifyNoHashT_abstract`) -/
 theorem C12gen_bw6_761_ecdsa_verify_abstract {G Fp : Type} [Add G] [Sub G] [Neg G] [Zero G] [SMul Int G] [Add Fp] [Sub Fp] [Mul Fp] [Inv Fp] [Zero Fp] [BEq Fp]
-    (isInfinity : G → Bool) (modInverse : Int → Int → Int) (hashToInt : List UInt8 → Int) (g : G)
+    (isInfinity : G → Bool) (isOnCurve : G → Bool) (modInverse : Int → Int → Int) (hashToInt : List UInt8 → Int) (g : G)
     (jacZ jacX : G → Fp) (fpToInt : Fp → Int) (Q : G) (sig msg : List UInt8)
     (r s : Nat) (hr : r = beToNat (sig.take (SigParams.ec_bw6_761).frBytes)) (hs : s = beToNat ((sig.drop (SigParams.ec_bw6_761).frBytes).take (SigParams.ec_bw6_761).frBytes))
     (U : G) (hU : U = (hashToInt msg * modInverse (s : Int) ecdsa_bw6_761.frModulus % ecdsa_bw6_761.frModulus) • g + ((r : Int) * modInverse (s : Int) ecdsa_bw6_761.frModulus % ecdsa_bw6_761.frModulus) • Q) :
-    ecdsa_bw6_761.PublicKey_Verify_nohash isInfinity modInverse hashToInt g jacZ jacX fpToInt Q sig msg = (true, Res.ok) ↔
-      (isInfinity Q = false ∧ sig.length = 2 * (SigParams.ec_bw6_761).frBytes ∧ r ≠ 0 ∧ (r : Int) < ecdsa_bw6_761.frModulus ∧ s ≠ 0 ∧ (s : Int) < ecdsa_bw6_761.frModulus ∧
+    ecdsa_bw6_761.PublicKey_Verify_nohash isInfinity isOnCurve modInverse hashToInt g jacZ jacX fpToInt Q sig msg = (true, Res.ok) ↔
+      (isInfinity Q = false ∧ isOnCurve Q = true ∧ sig.length = 2 * (SigParams.ec_bw6_761).frBytes ∧ r ≠ 0 ∧ (r : Int) < ecdsa_bw6_761.frModulus ∧ s ≠ 0 ∧ (s : Int) < ecdsa_bw6_761.frModulus ∧
         fpToInt ((jacZ U * jacZ U)⁻¹ * jacX U) % ecdsa_bw6_761.frModulus = (r : Int)) := by
   rw [C12gen_bw6_761_ecdsa_verify_nohash_shape]
-  exact ecdsaVerifyNoHashT_abstract _ _ isInfinity modInverse hashToInt g jacZ jacX fpToInt Q sig msg r s hr hs U hU
+  exact ecdsaVerifyNoHashT_abstract _ _ isInfinity isOnCurve modInverse hashToInt g jacZ jacX fpToInt Q sig msg r s hr hs U hU
 
 end GV.C12gen
